@@ -3,8 +3,8 @@ import Tuc.Props.C02
 /-!
 # C13 at the level of runs — the fast lane
 
-(Separate from `Tuc.Props.C13Runs` only because `Tuc.Props.C02` and `Tuc.Props.C03Refine` cannot
-be imported together: both declare `Tuc.mem_boundsOnly`.)
+(Separate from `Tuc.Props.C13Runs` for historical reasons: `Tuc.Props.C02` and `Tuc.Props.C03Refine`
+once declared the same name; since the renaming `Tuc.AllProps` imports every property file together.)
 -/
 namespace Tuc
 open Tuc.Spec
